@@ -226,6 +226,9 @@ fn op_fmt_roundtrip(req: &Value) -> Value {
             }
             Err(e) => {
                 o.insert("parse2_err".into(), e);
+                if want_ast {
+                    o.insert("ast1".into(), a1);
+                }
             }
         }
         match incan::format_source(&f1) {
